@@ -311,6 +311,15 @@ def _subconv_cases(seed, tier):
             yield {"self": c, "prefixes": rng.sample(names, min(k, len(names)))}
 
 
+@domain("C09.subconverter_answers_as_parent")
+def _sub_answers(seed, tier):
+    rng = random.Random(seed + 1)
+    for case in _subconv_cases(seed, tier):
+        names = worlds.prefix_pool(case["self"])
+        for p in rng.sample(names, min(3, len(names))) + ["zz"]:
+            yield {"conv": case["self"], "prefixes": case["prefixes"], "p": p, "x": rng.choice(["1", "", "a"])}
+
+
 @domain("C09.chain_single_is_identity")
 def _chain_single(seed, tier):
     for c in worlds.converters(40 if tier == "quick" else 300, seed):
